@@ -68,6 +68,12 @@ func RunCheck(o CheckOpts) int {
 	_ = os.RemoveAll(outDir)
 	_ = os.MkdirAll(outDir, 0o755)
 	evPath := filepath.Join(o.VerifDir, "evidence", o.Prop+".json")
+	if d := os.Getenv("VERIF_EVIDENCE_DIR"); d != "" {
+		// trial runs on deliberately broken trees (selftest, seeded changes) must not overwrite
+		// the evidence of the real tree
+		_ = os.MkdirAll(d, 0o755)
+		evPath = filepath.Join(d, o.Prop+".json")
+	}
 	_ = os.MkdirAll(filepath.Dir(evPath), 0o755)
 
 	E, err := Load(o.RepoDir, filepath.Join(o.VerifDir, "spec"), []string{"./..."})
